@@ -159,6 +159,7 @@ type session struct {
 	wmu       sync.Mutex // client-side writes
 	srvCancel context.CancelFunc
 	cancelled bool
+	before    map[string]bool // transport goroutines that existed before this session
 	baseCtx   context.Context
 	unit      time.Duration // base wait
 }
@@ -760,13 +761,26 @@ func obsReached(got Obs, want *Obs) (bool, string) {
 
 var reTransportFrame = regexp.MustCompile(`gqlgen/graphql/handler/transport\.`)
 
-func transportGoroutines() (int, string) {
+var reGoID = regexp.MustCompile(`^goroutine (\d+) `)
+
+// transportGoroutines: goroutines with a frame of gqlgen's transport package that did not exist
+// when the session began (ignore: ids present at the start - reported by the session that left them).
+func transportGoroutines(ignore map[string]bool) (int, string, map[string]bool) {
 	buf := make([]byte, 1<<20)
 	n := runtime.Stack(buf, true)
 	cnt := 0
+	ids := map[string]bool{}
 	var sb strings.Builder
 	for _, g := range strings.Split(string(buf[:n]), "\n\n") {
 		if reTransportFrame.MatchString(g) {
+			id := ""
+			if m := reGoID.FindStringSubmatch(g); m != nil {
+				id = m[1]
+			}
+			ids[id] = true
+			if ignore[id] {
+				continue
+			}
 			cnt++
 			if sb.Len() < 6000 {
 				sb.WriteString(g)
@@ -774,7 +788,7 @@ func transportGoroutines() (int, string) {
 			}
 		}
 	}
-	return cnt, sb.String()
+	return cnt, sb.String(), ids
 }
 
 func runScenario(sc *Scenario) *Result {
@@ -785,6 +799,7 @@ func runScenario(sc *Scenario) *Result {
 		s.unit = 3 * time.Second
 	}
 	res := &Result{ID: sc.ID, Diverge: []string{}, Notes: []string{}, Events: []Event{}}
+	_, _, s.before = transportGoroutines(nil)
 	s.startServer()
 	defer s.ts.Close()
 	if err := s.dial(); err != nil {
@@ -829,7 +844,7 @@ func runScenario(sc *Scenario) *Result {
 		} else if st.Sync {
 			s.settle(25*time.Millisecond, 2*time.Second)
 		}
-		if st.Op == "send" && st.M == "stop" && st.Sync {
+		if st.Op == "send" && st.M == "stop" && (st.Sync || st.Expect != nil) {
 			s.checkStop(st.ID, gen, confirm)
 		}
 	}
@@ -919,8 +934,23 @@ func (s *session) finish(gen, confirm time.Duration, res *Result) {
 		sort.Strings(out)
 		return out
 	}
-	drained := func() bool { return ended() || len(unterminated()) == 0 }
+	// ... and every value a Source returned is delivered (next frames carry the instance: exact)
+	undelivered := func() []string {
+		s.mu.Lock()
+		defer s.mu.Unlock()
+		var out []string
+		for _, i := range s.order {
+			if st := s.inst[i]; st.nx < st.em {
+				out = append(out, i)
+			}
+		}
+		return out
+	}
+	drained := func() bool { return ended() || (len(unterminated()) == 0 && len(undelivered()) == 0) }
 	if !s.waitFor(gen, drained) && !s.waitFor(confirm, drained) {
+		for _, i := range undelivered() {
+			s.logEv(Event{E: "Stall", M: "delivery", I: i}, nil)
+		}
 		for _, i := range unterminated() {
 			s.logEv(Event{E: "Stall", M: "termination", I: i}, nil)
 		}
@@ -1015,7 +1045,7 @@ func (s *session) finish(gen, confirm time.Duration, res *Result) {
 		if cf < 1 && !s.sc.Cfg.NoCloseFn {
 			return false
 		}
-		n, _ := transportGoroutines()
+		n, _, _ := transportGoroutines(s.before)
 		return n == 0
 	}
 	if !s.waitFor(gen, quiet) {
@@ -1023,7 +1053,7 @@ func (s *session) finish(gen, confirm time.Duration, res *Result) {
 	}
 	// a moment for a second CloseFunc call / late events to show up
 	time.Sleep(20 * time.Millisecond)
-	n, stack := transportGoroutines()
+	n, stack, _ := transportGoroutines(s.before)
 	if n > 0 {
 		res.Stack = stack
 	}
